@@ -145,15 +145,31 @@ impl Check for C10 {
                 rw = *rows;
             }
         }
-        for _ in 0..1 + r.usize_below(3) {
+        // one chain in five happens behind the alternate screen: the primary screen is then re-wrapped
+        // when the terminal returns to it, with the cursor saved by ?1049h
+        let excursion = c * rw <= 20_000 && r.chance(1, 5);
+        if excursion {
+            evs.push(Event::FeedStr { s: "\x1b[?1049h".into(), drain: crate::trace::Drain::All });
+            if r.chance(1, 2) {
+                evs.push(Event::FeedStr { s: (*r.pick(&["\x1b[!p", "alt\r\nscreen", "\x1b7", "\x1b[5;5H\x1b[s", "\x1b[!p\x1b[2J", "\x1b[?6h", "\x1b[2;3r"])).to_string(), drain: crate::trace::Drain::All });
+            }
+            st.bump("excursion_chains");
+        }
+        for k in 0..1 + r.usize_below(3) {
             if c * rw > 20_000 {
                 break; // gigantic screens keep their geometry (see sim::gen_session)
+            }
+            if excursion && k > 0 && r.chance(1, 3) {
+                evs.push(Event::FeedStr { s: (*r.pick(&["\x1b[!p", "x", "\x1b8", "\x1b[H"])).to_string(), drain: crate::trace::Drain::All });
             }
             let (c2, r2) = gen_resize(r, c, rw, mc, mr);
             evs.push(Event::Resize { cols: c2, rows: r2, drain: crate::trace::Drain::All });
             c = c2;
             rw = r2;
             gs.resizes += 1;
+        }
+        if excursion {
+            evs.push(Event::FeedStr { s: "\x1b[?1049l".into(), drain: crate::trace::Drain::All });
         }
         super::record_gen(st, &gs);
         super::count_events(st, &evs);
@@ -169,9 +185,42 @@ impl Check for C10 {
             let mut live = Live::new(&t.config);
             let mut judged = 0u64;
             let mut d = crate::rng::Digest::new();
+            // an excursion to the alternate screen entered by a "?1049h" event of its own: the view
+            // of the primary screen at that instant, judged against the view after the "?1049l" event
+            let mut excursion: Option<(Logical, usize, usize, bool)> = None;
             for (i, e) in t.events.iter().enumerate() {
                 let Event::Resize { cols, rows, .. } = e else {
+                    let enter = matches!(e, Event::FeedStr { s, .. } if s == "\x1b[?1049h") && !live.hid.alt && live.parser.state == avt::parser::State::Ground;
+                    let leave = matches!(e, Event::FeedStr { s, .. } if s == "\x1b[?1049l") && live.hid.alt && live.parser.state == avt::parser::State::Ground;
+                    if enter {
+                        let (oc, or) = live.vt.size();
+                        excursion = Some((logical(&live.vt), oc, or, live.vt.cursor().col >= oc));
+                    }
                     live.apply(e);
+                    if leave && !live.hid.alt {
+                        if let Some((before, oc, or, pending)) = excursion.take() {
+                            let (nc, nr) = live.vt.size();
+                            if pending {
+                                // ?1049h saves the cursor on the last column, not past it
+                                st.bump("excursion_not_judged_wrap_pending");
+                            } else {
+                                let after = logical(&live.vt);
+                                judged += 1;
+                                st.bump("excursion_judged");
+                                if (nc, nr) != (oc, or) {
+                                    st.bump("excursion_judged_size_changed");
+                                }
+                                if let Some((rule, dd)) = relation(&before, &after) {
+                                    return Verdict::Violation { rule: format!("C10/excursion-{}", rule), detail: format!("event #{}: primary screen {}x{} left by ?1049h, terminal resized meanwhile, returned by ?1049l at {}x{} (cursor line {} offset {}): {}", i, oc, or, nc, nr, before.cur_line, before.cur_off, dd) };
+                                }
+                                if let Some((rule, dd)) = super::c02::geometry(&live, (nc, nr)) {
+                                    return Verdict::Violation { rule: format!("C10/geometry-{}", rule), detail: dd };
+                                }
+                            }
+                        }
+                    } else if !live.hid.alt && !enter {
+                        excursion = None;
+                    }
                     continue;
                 };
                 if live.hid.alt {
@@ -235,12 +284,12 @@ impl Check for C10 {
     }
     fn meta(&self) -> Meta {
         Meta {
-            rule: "arbitrary primary-screen histories (every family except the alternate screen; incl. DECSTR and RIS; rows whose marks were set and cleared by editing), unlimited scrollback, resizes delivered at scheduler-chosen instants (also mid-sequence and with wrap pending, boosted) plus a final chain of 1-3 resizes between any sizes >= 1x1; oracle = the stated relation between the logical views (logical line = cells of rows joined by marks, right-trimmed of default cells) before and after each resize, plus the C02 geometry; non-trivial = a resize judged on a non-blank buffer; distinct = digests of (logical line counts, cursor offsets, final screen)",
-            assumptions: vec!["'same character' is judged only when the cursor was on a cell of the trimmed logical line; wrap pending counts as the next cell", "resizes while the alternate screen shows are not judged here (C16)", "a run in which avt panics is abandoned"],
+            rule: "arbitrary primary-screen histories (every family except the alternate screen; incl. DECSTR and RIS; rows whose marks were set and cleared by editing), unlimited scrollback, resizes delivered at scheduler-chosen instants (also mid-sequence and with wrap pending, boosted) plus a final chain of 1-3 resizes between any sizes >= 1x1, one chain in five behind the alternate screen (?1049h, optional DECSTR / saves / output there, the resizes, ?1049l: the primary screen is re-wrapped on return with the cursor ?1049h saved); oracle = the stated relation between the logical views (logical line = cells of rows joined by marks, right-trimmed of default cells) before and after each resize, plus the C02 geometry; non-trivial = a resize judged on a non-blank buffer; distinct = digests of (logical line counts, cursor offsets, final screen)",
+            assumptions: vec!["'same character' is judged only when the cursor was on a cell of the trimmed logical line; wrap pending counts as the next cell", "single resizes while the alternate screen shows are not judged (C16); an excursion entered by a ?1049h event of its own is judged as one compound resize of the primary screen, unless a wrap was pending on entry (?1049h saves the cursor on the last column)", "a run in which avt panics is abandoned"],
             real: vec!["avt::Vt", "avt::parser::Parser (lock-step)", "avt::util::TextUnwrapper (wrap marks)"],
             simulated: vec!["App", "Pipe", "Window (resize timing)"],
             model: vec!["logical-line relation of the statement"],
-            probes: vec!["resize_wider", "resize_narrower", "resize_taller", "resize_shorter", "resize_with_wrap_pending", "resize_mid_sequence_judged", "content_cut_below_cursor", "cursor_line_taller_than_view"],
+            probes: vec!["resize_wider", "resize_narrower", "resize_taller", "resize_shorter", "resize_with_wrap_pending", "resize_mid_sequence_judged", "content_cut_below_cursor", "cursor_line_taller_than_view", "excursion_judged", "excursion_judged_size_changed"],
             fault_kinds: vec!["resize_events", "resize_while_wrap_pending", "resize_mid_sequence", "env_events_inside_token", "feed_char_calls"],
         }
     }
